@@ -363,6 +363,20 @@ impl Prop for C18 {
             files[0].1.insert(0, Line::Ins(Ins::new("j", vec![Opd::L("nowhereA".into())])));
             files[k].1.insert(0, Line::Ins(Ins::new("j", vec![Opd::L("nowhereB".into())])));
         }
+        // one multi-file case in three spells some include paths with a leading "./"
+        if files.len() >= 2 && ch.chance(1, 3) {
+            for (_, ls) in files.iter_mut() {
+                for l in ls.iter_mut() {
+                    if let Line::Dir(d, ops) = l {
+                        if d == ".include" && ch.chance(1, 2) {
+                            if let Some(Opd::S(p)) = ops.first_mut() {
+                                *p = format!("./{p}");
+                            }
+                        }
+                    }
+                }
+            }
+        }
         let missing_include = ch.chance(1, 8);
         let crlf = ch.chance(1, 6);
         if missing_include {
